@@ -5,6 +5,12 @@ CONSTANTS
   Lens = {100, 5000}
   OptLens = {0, 11}
   ROpts = {"none", "keepalive"}
+  Recipes = {"plain"}
+  Routes = {"mk"}
+  ALays = {"none"}
+  Tgts = {"vec"}
+  SvcRoutes = {"impl"}
+  EOns = {TRUE}
   QLens = {17}
 SPECIFICATION Spec
 INVARIANT SomeTruncated
